@@ -1469,6 +1469,13 @@ func (it *Interp) binop(s *State, fr *Frame, x *ssa.BinOp, a, b AV) AV {
 				if bv.Known && bv.V == 0 && it.polySign(ta.N) == 2 && it.polySign(ta.D) == 2 {
 					return FloatV{Known: true, V: math.Inf(1)} // a positive value over zero
 				}
+				if tb.isZero() {
+					// the divisor is zero whatever the unknowns are: 0/0 is NaN, anything else over zero is not finite
+					if ta.isZero() {
+						return FloatV{Known: true, V: math.NaN()}
+					}
+					return FloatV{Opq: true}
+				}
 				r.Term = termDiv(ta, tb)
 			}
 			it.intervalArith(s, x.Op, av, bv, r)
